@@ -25,6 +25,9 @@ type c09Case struct {
 	Delay   time.Duration `json:"delay,omitempty"`
 	Op      string        `json:"op"`   // Close | CloseNow | closeread-data | Close-badcode | Close-longreason
 	When    string        `json:"when"` // adversary acts "before" or "after" the local close call starts
+	// AfterOp "write": once the close call is under way (and whatever it waits for is being waited
+	// for), another goroutine calls Write with a context that never ends
+	AfterOp string `json:"after_op,omitempty"`
 }
 
 var c09States = []string{"idle", "reader-blocked", "half-read", "closeread", "writer-blocked", "writer-open", "ping-pending"}
@@ -32,6 +35,10 @@ var c09Advs = []string{"silent-reading", "silent-not-reading", "stall", "flood-f
 
 // states that only make sense once the adversary has acted: a write that then fails in the transport
 var c09LateStates = []string{"write-fails", "stream-write-fails"}
+
+// c09ClosedStates: the connection has already been closed by the peer's Close frame (taken in by a
+// Read) when the application calls CloseRead - and then Close or CloseNow.
+var c09ClosedStates = []string{"closeread-after-peer-close"}
 
 // c09PingStates: a Ping whose frame is stuck in the transport (the peer took one byte of it) while the peer
 // already sends the Pong for it - twice (Ping payloads are a counter: the first one is "1").
@@ -236,6 +243,10 @@ func runC09(t fataler, c c09Case) (string, c09Result) {
 			})
 		case "half-close":
 			lc.End.CloseWrite(nil)
+		case "window-for-one-write":
+			// (meaningful with a writer blocked on a zero window) the peer takes what that Write
+			// still has to send and a few bytes more, then nothing again
+			lc.End.AddInBudget(9010)
 		case "zero-window":
 			lc.End.SetInBudget(0) // the peer is there but takes nothing: every write of the library blocks
 		case "hangup":
@@ -247,7 +258,7 @@ func runC09(t fataler, c c09Case) (string, c09Result) {
 	switch c.Adv {
 	case "silent-reading", "silent-not-reading", "echo-delay":
 		res.Withheld = true
-	case "flood-frames", "flood-fragments", "flood-payload", "half-close", "violation", "hangup", "zero-window":
+	case "flood-frames", "flood-fragments", "flood-payload", "half-close", "violation", "hangup", "zero-window", "window-for-one-write":
 		res.Withheld = true
 	}
 	if c.When == "before" {
@@ -259,6 +270,15 @@ func runC09(t fataler, c c09Case) (string, c09Result) {
 		blockedCalls = append(blockedCalls, blocked{"Write", e.Call(func() {
 			conn.Write(ctx, websocket.MessageBinary, expand(ckRandom, 6, 9000))
 		})})
+		synctest.Wait()
+	case "closeread-after-peer-close":
+		p.send(ref.Frame{Fin: true, Opcode: ref.OpClose, Payload: ref.ClosePayload(1000, "bye")})
+		var rerr error
+		d := e.Call(func() { _, _, rerr = conn.Read(ctx) })
+		if !within(d, 10*time.Second) || rerr == nil {
+			return fmt.Sprintf("setup: the Read that takes in the peer's Close frame did not fail (%v)", rerr), res
+		}
+		crCtx = conn.CloseRead(ctx)
 		synctest.Wait()
 	case "stream-write-fails":
 		blockedCalls = append(blockedCalls, blocked{"Writer/Write/Close", e.Call(func() {
@@ -296,6 +316,12 @@ func runC09(t fataler, c c09Case) (string, c09Result) {
 	if c.When == "after" {
 		synctest.Wait()
 		adversary()
+	}
+	if c.AfterOp == "write" {
+		synctest.Wait()
+		blockedCalls = append(blockedCalls, blocked{"Write (started while " + c.Op + " was under way)", e.Call(func() {
+			conn.Write(ctx, websocket.MessageText, []byte("written while the connection is being closed"))
+		})})
 	}
 	bound := 11 * time.Second
 	if c.Op == "CloseNow" {
@@ -365,12 +391,12 @@ func c09Key(c c09Case) string {
 	case c.K > 14:
 		kc = "k-payload"
 	}
-	return fmt.Sprintf("%v|%v|%s|%s|%s|%s|%v|%s|%s", c.Client, c.Deflate, c.State, c.Adv, c.Frame, kc, c.Delay, c.Op, c.When)
+	return fmt.Sprintf("%v|%v|%s|%s|%s|%s|%v|%s|%s|%s", c.Client, c.Deflate, c.State, c.Adv, c.Frame, kc, c.Delay, c.Op, c.When, c.AfterOp)
 }
 
 func TestC09(t *testing.T) {
 	rec := evid.For("C09")
-	rec.Rule = "enumerated matrix in virtual time: local state {idle, reader blocked, message half read, CloseRead active, writer blocked on a zero window, Writer open mid-message, Ping pending} [+ a Write / a streamed message started after the adversary acted] [+ a Ping whose frame is stuck in the transport while the peer already sends its Pong twice] x scripted adversary {gone (transport closed: writes fail), present but taking nothing (zero window), silent but reading, never reading, stall after k bytes of a frame for EVERY k (7/16/64-bit data frames, Ping, Close, non-final fragment), endless data frames, one endless payload, half-close, echo after 0/1/4.9/5.1/20 s, protocol violation} acting before or after the call x role x {Close, CloseNow, CloseRead + incoming data message, Close with an unsendable code, Close with a 124-byte reason}; then rapid-drawn combinations. Bounds asserted on the fake clock: Close <= 11 s, CloseNow <= 1 s, blocked calls and the CloseRead context <= 1 s after the library closed the transport. Non-trivial: the adversary withheld something the library was waiting for. distinct = (role, state, adversary, frame kind, k class, delay, op, timing)."
+	rec.Rule = "enumerated matrix in virtual time: local state {idle, reader blocked, message half read, CloseRead active, writer blocked on a zero window, Writer open mid-message, Ping pending} [+ a Write / a streamed message started after the adversary acted] [+ a Ping whose frame is stuck in the transport while the peer already sends its Pong twice] [+ CloseRead called after the peer's Close frame has already closed the connection] [+ a Write with an endless context arriving while the close call is under way] [+ a peer that takes just what a blocked Write still has to send and then nothing again] x scripted adversary {gone (transport closed: writes fail), present but taking nothing (zero window), silent but reading, never reading, stall after k bytes of a frame for EVERY k (7/16/64-bit data frames, Ping, Close, non-final fragment), endless data frames, one endless payload, half-close, echo after 0/1/4.9/5.1/20 s, protocol violation} acting before or after the call x role x {Close, CloseNow, CloseRead + incoming data message, Close with an unsendable code, Close with a 124-byte reason}; then rapid-drawn combinations. Bounds asserted on the fake clock: Close <= 11 s, CloseNow <= 1 s, blocked calls and the CloseRead context <= 1 s after the library closed the transport. Non-trivial: the adversary withheld something the library was waiting for. distinct = (role, state, adversary, frame kind, k class, delay, op, timing)."
 	var rc c09Case
 	if replayCase(t, &rc) {
 		var msg string
@@ -453,6 +479,21 @@ func TestC09(t *testing.T) {
 				}
 			}
 		}
+		for _, st := range c09ClosedStates {
+			for _, op := range []string{"Close", "CloseNow"} {
+				one(c09Case{Client: client, State: st, Adv: "silent-reading", Op: op, When: "before"})
+				one(c09Case{Client: client, State: st, Adv: "hangup", Op: op, When: "after"})
+			}
+		}
+		for _, st := range []string{"idle", "reader-blocked", "closeread", "writer-open", "writer-blocked"} {
+			for _, adv := range []string{"zero-window", "silent-not-reading", "silent-reading", "window-for-one-write"} {
+				for _, when := range []string{"before", "after"} {
+					one(c09Case{Client: client, State: st, Adv: adv, Op: "Close", When: when, AfterOp: "write"})
+					one(c09Case{Client: client, Deflate: true, State: st, Adv: adv, Op: "CloseNow", When: when, AfterOp: "write"})
+				}
+			}
+			one(c09Case{Client: client, State: st, Adv: "window-for-one-write", Op: "Close", When: "after"})
+		}
 		for _, st := range c09PingStates {
 			for _, op := range []string{"Close", "CloseNow"} {
 				for _, adv := range []string{"silent-reading", "zero-window", "hangup"} {
@@ -483,10 +524,21 @@ func TestC09Mixed(t *testing.T) {
 		c := c09Case{
 			Client:  rapid.Bool().Draw(rt, "client"),
 			Deflate: rapid.Bool().Draw(rt, "deflate"),
-			State:   rapid.SampledFrom(append(append(append([]string(nil), c09States...), c09LateStates...), c09PingStates...)).Draw(rt, "state"),
-			Adv:     rapid.SampledFrom(c09Advs).Draw(rt, "adv"),
+			State:   rapid.SampledFrom(append(append(append(append([]string(nil), c09States...), c09LateStates...), c09PingStates...), c09ClosedStates...)).Draw(rt, "state"),
+			Adv:     rapid.SampledFrom(append([]string{"window-for-one-write"}, c09Advs...)).Draw(rt, "adv"),
 			Op:      rapid.SampledFrom([]string{"Close", "Close", "Close", "CloseNow", "CloseNow", "closeread-data", "Close-badcode", "Close-longreason"}).Draw(rt, "op"),
 			When:    rapid.SampledFrom([]string{"before", "after"}).Draw(rt, "when"),
+		}
+		if c.Op != "closeread-data" && rapid.IntRange(0, 3).Draw(rt, "writeArrivesDuringClose") == 0 {
+			c.AfterOp = "write"
+		}
+		if c.State == "closeread-after-peer-close" {
+			if c.Op == "closeread-data" {
+				c.Op = "CloseNow"
+			}
+			if c.Adv != "silent-reading" && c.Adv != "echo-delay" {
+				c.Adv, c.When = "hangup", "after"
+			}
 		}
 		if c.State == "write-fails" || c.State == "stream-write-fails" {
 			c.When = "before"
